@@ -306,27 +306,45 @@ def run(ctx, ck):
     # N = D = 0, M = 1 initially and s = j*2*pi*f*1e6; the result is N / D   (Horner-free power sum)
     ok, why = False, 'unexpected shape'
     lps = [l for l in imp.body() if isinstance(l, (ast.For, ast.While))]
-    if len(lps) == 1 and isinstance(lps[0], ast.For) and isinstance(lps[0].target, ast.Name):
+    if len(lps) == 1 and isinstance(lps[0], ast.For):
         lp = lps[0]
-        jv_ = lp.target.id
         pre, carried, bpaths, post = loop_transformer(ctx, imp, lp)
         bpaths = [p_ for p_ in bpaths if p_.end is None]
         post = [p_ for p_ in post if p_.end == 'return']
-        rng = norm(lp.iter) in ('range(len(self.a))', 'range(len(self.b))', 'range(self.degree + 1)')
-        if len(bpaths) == 1 and len(post) == 1 and rng and isinstance(post[0].ret, ast.BinOp) and \
+        # the j-th coefficients: by index (for j in range(len(self.a)): self.a[j]) or as the elements of
+        # zip(self.b, self.a) - both lists have the same length (zero padded by the constructor)
+        it_txt = norm(lp.iter)
+        tnames = [n_.id for n_ in ast.walk(lp.target) if isinstance(n_, ast.Name)]
+        elem = {}
+        IDX = None
+        if isinstance(lp.target, ast.Name) and it_txt in ('range(len(self.a))', 'range(len(self.b))', 'range(self.degree + 1)'):
+            IDX = lp.target.id
+        elif it_txt in ('zip(self.b, self.a)', 'zip(self.a, self.b)') or \
+                _re.match(r'^enumerate\(zip\(self\.[ab], self\.[ab]\)\)$', it_txt):
+            from ..symx import Path
+            sx_ = SymExec(ctx, imp, bind_loops=True)
+            probe = Path({}, ())
+            sx_._bind_loop(lp.target, lp.iter, probe)
+            elem = {k_: v_ for k_, v_ in probe.env.items() if k_ in tnames}
+            ks_ = sorted({n_.id for v_ in elem.values() for n_ in ast.walk(v_) if isinstance(n_, ast.Name) and n_.id.startswith('_k')})
+            IDX = ks_[0] if len(ks_) == 1 else None
+        if len(bpaths) == 1 and len(post) == 1 and IDX is not None and isinstance(post[0].ret, ast.BinOp) and \
            isinstance(post[0].ret.op, ast.Div) and isinstance(post[0].ret.left, ast.Name) and \
            isinstance(post[0].ret.right, ast.Name):
             N, D = post[0].ret.left.id, post[0].ret.right.id
-            env1 = bpaths[0].env
+            env1 = {k_: copy_replace(v_, lambda n_: elem.get(n_.id) if isinstance(n_, ast.Name) else None)
+                    for k_, v_ in bpaths[0].env.items()}
 
             def P(e_):
                 return cancel(poly_roles(e_, {}))
             try:
+                Bj = P(ast.parse('self.b[%s]' % IDX, mode='eval').body)
+                Aj = P(ast.parse('self.a[%s]' % IDX, mode='eval').body)
                 dN = cancel(P(env1[N]) - Poly.var(N))
                 dD = cancel(P(env1[D]) - Poly.var(D))
-                cand = [v_ for v_ in carried - {N, D, jv_} if v_ in env1]
-                M = [v_ for v_ in cand if cancel(dN - Poly.var('b[%s]' % jv_) * Poly.var(v_)).t == {}]
-                ok = len(M) == 1 and cancel(dD - Poly.var('a[%s]' % jv_) * Poly.var(M[0])).t == {}
+                cand = [v_ for v_ in carried - {N, D} - set(tnames) if v_ in env1]
+                M = [v_ for v_ in cand if cancel(dN - Bj * Poly.var(v_)).t == {}]
+                ok = len(M) == 1 and cancel(dD - Aj * Poly.var(M[0])).t == {}
                 why = 'numerator step %r, denominator step %r' % (dN, dD)
                 if ok:
                     step = cancel(P(env1[M[0]]) - Poly.var(M[0]) * roles_of_text('1j * 2 * pi * f * 1e6'))
@@ -489,7 +507,7 @@ def run(ctx, ck):
 
     def path_forms(func):
         out = []
-        for p_ in SymExec(ctx, func).run():
+        for p_ in SymExec(ctx, func, effects=True).run():
             if p_.end != 'return' or p_.ret is None:
                 continue
             try:
